@@ -1,6 +1,7 @@
 import PsV.Proofs.Bridge
 import PsV.Proofs.Unity
 import PsV.Proofs.RoundingEval
+import PsV.Proofs.RoundingAll
 /-!
 # C01 — evaluation equals the tensor-product B-spline sum it represents
 
@@ -15,10 +16,10 @@ driver runs).
 operation and every store rounded (any roundings of relative error ≤ ε: the standard model of IEEE
 arithmetic without underflow/overflow, `C01_standard_model`) differs from the exact value by at most
 `((1+ε)^K − 1)·Σ|coef|·ΠB`, `K = 3 + ndim(7·maxorder+3) + 2·Π(order_d+1)`, at every point inside a non-empty
-knot interval of the fully supported range; `C01_envelope_linear`: `(1+ε)^K − 1 ≤ 2Kε` when `2Kε ≤ 1`, which
-is below the envelope `4(N+4·ndim·(maxorder+1))·u·S` the correspondence check allows.  Partial: margins
-(extrapolated recurrences change sign), derivatives, underflow/overflow are not covered by the theorem
-and stay with the measured envelope.
+knot interval of the fully supported range, and `C01_rounding_envelope_all_partial` extends this to every point the
+lookup accepts (margins, knots) under the hypotheses of the exact theorem; `C01_envelope_linear`: `(1+ε)^K − 1 ≤ 2Kε` when `2Kε ≤ 1`, which
+is below the envelope `4(N+4·ndim·(maxorder+1))·u·S` the correspondence check allows.  Partial: derivatives and underflow/overflow are not covered by the theorem
+and stay with the measured envelope; the degenerate upper end is excluded as in the exact theorem.
 -/
 namespace PsV
 variable {α : Type} [Field α] [LinearOrder α]
@@ -147,6 +148,25 @@ theorem C01_rounded_eval_near_spec_partial (hε : 0 ≤ ε) (hfl : ∀ a, RelErr
       gfac ε (3 + T.dims.length * (7 * n + 3) + 2 * blockSize T.dims) *
         @specEval F (Arith.ofField F) ⟨T.dims, fun i => |T.coef i|⟩ xs (List.replicate T.dims.length .value) := by
   have h := C01_rounding_envelope_partial hε hfl hst T xs cs n hint hn
+  rw [C01_eval_eq_spec_partial T xs cs hwf hlen hnd hs] at h
+  have habs := C01_eval_eq_spec_partial (⟨T.dims, fun i => |T.coef i|⟩ : Table F) xs cs ⟨hwf.dims, hwf.stride⟩ hlen hnd hs
+  rw [habs] at h
+  exact h
+
+/-- **Forward error bound at every accepted point** — interior, both partially supported margins, exactly
+on knots: the hypotheses are those of `C01_eval_eq_spec_partial`.  (In the margins the recurrences also
+produce entries of absent basis functions from the padding around the knot array; they carry no bound, are
+discarded by the re-indexing, and the kept entries never depend on them — `bsplvbSimple_relerr_all`.) -/
+theorem C01_rounding_envelope_all_partial (hε : 0 ≤ ε) (hfl : ∀ a, RelErr ε 1 a (fl a)) (hst : ∀ a, RelErr ε 1 a (st a))
+    (T : Table F) (xs : List F) (cs : List Nat) (n : Nat) (hwf : T.WF)
+    (hlen : T.dims.length = xs.length) (hnd : AllNonDegenerate T.dims xs)
+    (hs : @searchCenters F (cmpLO F) (T.dims.map Dim.axis) xs = .ok cs) (hn : ∀ d ∈ T.dims, d.order ≤ n) :
+    |@ndsplineeval F (Arith.rounded fl st) T xs cs 0
+        - @specEval F (Arith.ofField F) T xs (List.replicate T.dims.length .value)| ≤
+      gfac ε (3 + T.dims.length * (7 * n + 3) + 2 * blockSize T.dims) *
+        @specEval F (Arith.ofField F) ⟨T.dims, fun i => |T.coef i|⟩ xs (List.replicate T.dims.length .value) := by
+  have hok := allOK_of_search T.dims xs cs hwf.dims hlen hnd hs
+  have h := ndsplineeval_rounding_all hε hfl hst T xs cs n hok hn
   rw [C01_eval_eq_spec_partial T xs cs hwf hlen hnd hs] at h
   have habs := C01_eval_eq_spec_partial (⟨T.dims, fun i => |T.coef i|⟩ : Table F) xs cs ⟨hwf.dims, hwf.stride⟩ hlen hnd hs
   rw [habs] at h
